@@ -18,7 +18,9 @@ def run(ctx):
                 "all": stages.ALL_OPS}
     stages.chan_family(ctx, ["C11.", "C19.views"], lambda s: s["op"] in PAUSE_OPS, seq_variants=variants)
     # manager level: the same property on a real manager (messages, API calls, transport callbacks)
-    stages.mgr_family(ctx, ["C11."], ["all"], lambda s: s["stim"]["kind"] in ("Pause", "Resume") or s["stim"]["msg"]["kind"] == "Update", quick_n=3000, model=not ctx.quick(), sims=False, invariants=["M_C11_Own"], keep=lambda l: any(k in l for k in ('"kind":"Pause"', '"kind":"Resume"', '"kind":"Update"', '"kind":"UpdateValidation"')) or
+    stages.mgr_family(ctx, ["C11."], ["all", "c04"], lambda s: s["stim"]["kind"] in ("Pause", "Resume") or s["stim"]["msg"]["kind"] == "Update", quick_n=3000, model=not ctx.quick(), sims=False, invariants=["M_C11_Own"], keep=lambda l: any(k in l for k in ('"kind":"Pause"', '"kind":"Resume"', '"kind":"Update"', '"kind":"UpdateValidation"')) or
+                      # restart requests: their answer announces the responder's pause state
+                      ('"kind":"Restart"' in l and '"isReq":true' in l and '"accepted":true' in l) or
                       # every inbound response / request that meets a channel whose local side is paused (the counterparty's "not paused" must not lift the local pause)
                       (('"ip":true' in l or '"rp":true' in l) and any(k in l for k in ('"kind":"RecvResponse"', '"kind":"OnResponseReceived"', '"kind":"RecvRequest"', '"kind":"OnRequestReceived"'))))
     # two-node replays of Sys.tla behaviours on two real managers: C11 rules of SysJudge and of the manager judge on every step of either node
